@@ -464,6 +464,11 @@ class Program(object):
                             self.inlined.append(
                                 (m.name, q, 'mapping comprehension %s '
                                  'unfolded' % x))
+                        for x in inline.unfold_flattening_generators(
+                                fn, ref_f[q]):
+                            self.inlined.append(
+                                (m.name, q, 'flattening generator %s '
+                                 'unfolded' % x))
                         if inline.fold_dict_updates(fn):
                             self.inlined.append((m.name, q,
                                                  'dict update folded'))
